@@ -1,10 +1,11 @@
 #!/bin/sh
 # usage: tools/ref_try.sh <round> Cxx n — apply the behaviour-preserving refactoring refactorings/Cxx/changeN.diff
-# (round 1; later rounds: /tmp/ref<round>out_Cxx/changeN.diff) in a scratch worktree, run the repo tests and every check
+# (round 1; round 2: refactorings2/Cxx/changeN.diff; later rounds: /tmp/ref<round>out_Cxx/changeN.diff) in a scratch worktree, run the repo tests and every check
 # whose anchored files the diff touches; all must stay OK.
 R=$1; P=$2; N=$3
 D=/verif/refactorings/$P/change$N.diff
-[ "$R" != "1" ] && D=/tmp/ref${R}out_$P/change$N.diff
+[ "$R" = "2" ] && D=/verif/refactorings2/$P/change$N.diff
+[ "$R" != "1" ] && [ "$R" != "2" ] && D=/tmp/ref${R}out_$P/change$N.diff
 [ -f "$D" ] || { echo "== $P ref$N: no diff"; exit 0; }
 WT=/tmp/refwt_$$
 git -C /repo worktree add --detach $WT HEAD >/dev/null 2>&1 || exit 2
